@@ -403,12 +403,30 @@ func runCache(sci interface{}) {
 		}
 	}
 	pendingReads = nil
-	close(stopch)
+	if len(sc.Ops)%2 == 0 {
+		cancel() // the cache also stops with its context
+	} else {
+		close(stopch)
+	}
 	if !world.WaitClosed(c.Done(), time.Millisecond) {
 		detsim.Fail("hang:cache-stop", "cache did not stop after its stop channel closed")
 	}
 	if _, err := c.List(); err == nil {
 		detsim.Fail("api-after-shutdown", "List() on a stopped cache returned no error")
+	}
+	// every other entry point returns instead of blocking, too
+	probe := world.BuildMeta("pod", world.Spec{NS: "n1", Name: "a", RV: "1"})
+	if _, err := c.Get("n1", "a"); err == nil {
+		detsim.Fail("api-after-shutdown", "Get() on a stopped cache returned no error")
+	}
+	if _, err := c.Sync(nil); err == nil {
+		detsim.Fail("api-after-shutdown", "sync on a stopped cache returned no error")
+	}
+	if _, err := c.Update(kcache.NewEvent(kcache.EventTypeUpdate, probe)); err == nil {
+		detsim.Fail("api-after-shutdown", "update on a stopped cache returned no error")
+	}
+	if _, err := c.Refilter(nil, sc.Filter.Build()); err == nil {
+		detsim.Fail("api-after-shutdown", "refilter on a stopped cache returned no error")
 	}
 }
 
